@@ -199,6 +199,21 @@ type slot struct {
 	OnVictim bool
 }
 
+// asReplyTo makes an embedded reference claim to be a reply to parent (only replies are
+// listed under a post); URL references are left alone.
+func asReplyTo(ref any, parent string) any {
+	m, ok := ref.(M)
+	if !ok {
+		return ref
+	}
+	c := M{}
+	for k, v := range m {
+		c[k] = v
+	}
+	c["inReplyTo"] = parent
+	return c
+}
+
 // anonOn serves a collection document without an id at a fresh URL of the attacker.
 func anonOn(from string, doc M) string {
 	serial++
@@ -247,7 +262,16 @@ func slots() []slot {
 		}},
 		{Name: "victim-post.replies-url-to-anonymous-collection", IsActor: false, Make: func(from, id string, ref any) M {
 			d := note(id, h1, "genuine carrier")
-			d["replies"] = anonOn(from, M{"type": "Collection", "totalItems": 1.0, "items": []any{ref}})
+			d["replies"] = anonOn(from, M{"type": "Collection", "totalItems": 1.0, "items": []any{asReplyTo(ref, id)}})
+			return d
+		}, OnVictim: true},
+		{Name: "victim-post.replies-url-to-attackers-collection", IsActor: false, Make: func(from, id string, ref any) M {
+			// the collection is honest about itself (its id is on the attacker's host); the
+			// embedded item claims the victim's host and to be a reply to the carrier
+			d := note(id, h1, "genuine carrier")
+			serial++
+			cu := fmt.Sprintf("%s/replies-of-carrier%d", from, serial)
+			d["replies"] = serveOn(from, fmt.Sprintf("/replies-of-carrier%d", serial), M{"type": "Collection", "id": cu, "totalItems": 1.0, "items": []any{asReplyTo(ref, id)}})
 			return d
 		}, OnVictim: true},
 		{Name: "victim-actor.outbox-url-to-anonymous-collection", IsActor: false, Make: func(from, id string, ref any) M {
@@ -479,7 +503,7 @@ func refDecoded(ref any) any {
 
 func main() {
 	r := ev.New("C02", "model_checking",
-		"attack worlds: attacker host in {evil, h2} x 16 reference slots (inReplyTo, attributedTo, audience, reply item, activity object/actor, Create object, an inline Create wrapper with a claimed id, outbox item, collection item, first page; and four where a genuine document of the victim's host points at a collection or page served by the attacker without an id) x 20 presentations of a forged copy of h1's note or actor "+
+		"attack worlds: attacker host in {evil, h2} x 17 reference slots (inReplyTo, attributedTo, audience, reply item, activity object/actor, Create object, an inline Create wrapper with a claimed id, outbox item, collection item, first page; and five where a genuine document of the victim's host points at a collection or page served by the attacker without an id) x 20 presentations of a forged copy of h1's note or actor "+
 			"(embedded copy, stubs, URL to a forging path, redirects to the victim / a third-host copy / relative, victim-host open redirect, open redirect used as id, id with :443 / upper case / userinfo / trailing dot / missing / wrong type, genuine URL) "+
 			"x warming history {cold, victim cached, reference cached, carrier fetched before; thorough: also every ordered pair of these} x cache size {1,2,128}; each through pub.New (by URL twice, embedded with attacker source, embedded without source) with every reachable item inspected, and through client.FetchUnknown three times; "+
 			"every object names its serving host in its visible text and in a stamp; distinct_nontrivial = attack cases (not the genuine-URL control)")
